@@ -30,6 +30,13 @@ def fs_of(p):
     return p.ghost["fs"]
 
 
+def kind_at(p, fs_kind, t):
+    """fs.kind[t] with the ground instance of 'every kind is absent / file / directory'"""
+    k = z3.Select(fs_kind, t)
+    p.assume(z3.And(k >= 0, k <= 2))
+    return k
+
+
 def str_term(p, v):
     v = p.unbox(v, "str") if isinstance(v, VBox) else v
     if isinstance(v, VStr):
@@ -76,26 +83,26 @@ def install(reg):
     # ------------------------------------------------------------ queries
     def os_path_exists(p, args, kw):
         fs = fs_of(p)
-        return VBool(z3.Select(fs.kind, str_term(p, args[0])) != ABSENT)
+        return VBool(kind_at(p, fs.kind, str_term(p, args[0])) != ABSENT)
     E["os.path.exists"] = os_path_exists
 
     def os_path_isfile(p, args, kw):
         fs = fs_of(p)
-        return VBool(z3.Select(fs.kind, str_term(p, args[0])) == FILE)
+        return VBool(kind_at(p, fs.kind, str_term(p, args[0])) == FILE)
     E["os.path.isfile"] = os_path_isfile
 
     def os_path_isdir(p, args, kw):
         fs = fs_of(p)
-        return VBool(z3.Select(fs.kind, str_term(p, args[0])) == DIR)
+        return VBool(kind_at(p, fs.kind, str_term(p, args[0])) == DIR)
     E["os.path.isdir"] = os_path_isdir
 
     def os_path_getsize(p, args, kw):
         fs = fs_of(p)
         t = str_term(p, args[0])
-        if not p.branch(z3.Select(fs.kind, t) != ABSENT):
+        if not p.branch(kind_at(p, fs.kind, t) != ABSENT):
             p.raise_("FileNotFoundError")
         f = p.engine.uf("dir_size", S, I)
-        return VInt(z3.If(z3.Select(fs.kind, t) == FILE, z3.Length(z3.Select(fs.data, t)), f(t)))
+        return VInt(z3.If(kind_at(p, fs.kind, t) == FILE, z3.Length(z3.Select(fs.data, t)), f(t)))
     E["os.path.getsize"] = os_path_getsize
 
     def os_path_abspath(p, args, kw):
@@ -138,7 +145,7 @@ def install(reg):
         fs = fs_of(p)
         t = str_term(p, args[0])
         maybe_oserror(p, "remove")
-        if not p.branch(z3.Select(fs.kind, t) == FILE):
+        if not p.branch(kind_at(p, fs.kind, t) == FILE):
             p.raise_("FileNotFoundError")
         fs.kind = z3.Store(fs.kind, t, ABSENT)
         effect(p, "remove", t)
@@ -150,9 +157,9 @@ def install(reg):
         fs = fs_of(p)
         src, dst = str_term(p, args[0]), str_term(p, args[1])
         maybe_oserror(p, "replace")
-        if not p.branch(z3.Select(fs.kind, src) == FILE):
+        if not p.branch(kind_at(p, fs.kind, src) == FILE):
             p.raise_("FileNotFoundError")
-        if not p.branch(z3.Select(fs.kind, dst) != DIR):
+        if not p.branch(kind_at(p, fs.kind, dst) != DIR):
             p.raise_("IsADirectoryError")
         # atomic: dst gets src's bytes, src disappears
         d = z3.Select(fs.data, src)
@@ -174,7 +181,7 @@ def install(reg):
         fs = fs_of(p)
         src, dst = str_term(p, args[0]), str_term(p, args[1])
         maybe_oserror(p, "move")
-        if not p.branch(z3.Select(fs.kind, src) == FILE):
+        if not p.branch(kind_at(p, fs.kind, src) == FILE):
             p.raise_("FileNotFoundError")
         p.engine.assumption("shutil.move: atomic rename on one file system, copy+remove (non-atomic) across file systems")
         if p.branch(p.fresh("move_same_filesystem", B)):
@@ -227,7 +234,7 @@ def install(reg):
         fs = fs_of(p)
         t = str_term(p, args[0])
         maybe_oserror(p, "mkdir")
-        if not p.branch(z3.Select(fs.kind, t) == ABSENT):
+        if not p.branch(kind_at(p, fs.kind, t) == ABSENT):
             p.raise_("FileExistsError")
         fs.kind = z3.Store(fs.kind, t, DIR)
         effect(p, "mkdir", t)
@@ -238,9 +245,9 @@ def install(reg):
         fs = fs_of(p)
         src, dst = str_term(p, args[0]), str_term(p, args[1])
         maybe_oserror(p, "copy")
-        if not p.branch(z3.Select(fs.kind, src) == FILE):
+        if not p.branch(kind_at(p, fs.kind, src) == FILE):
             p.raise_("FileNotFoundError")
-        if p.branch(z3.Select(fs.kind, dst) == DIR):
+        if p.branch(kind_at(p, fs.kind, dst) == DIR):
             raise Unsupported("shutil.copy into a directory")
         fs.kind = z3.Store(fs.kind, dst, FILE)
         # crash point: truncated / partially written destination
@@ -264,7 +271,7 @@ def install(reg):
         maybe_oserror(p, "mkstemp")
         t = p.fresh("tmp_path", S)
         # assumed contract: a path that did not exist, created as an empty regular file
-        p.assume(z3.Select(fs.kind, t) == ABSENT)
+        p.assume(kind_at(p, fs.kind, t) == ABSENT)
         d = kw.get("dir")
         if d is not None:
             p.assume(z3.PrefixOf(str_term(p, d), t))
@@ -294,14 +301,14 @@ def install(reg):
         if mode is None:
             raise Unsupported("open with symbolic mode")
         if mode in ("rb", "r"):
-            if not p.branch(z3.Select(fs.kind, t) == FILE):
-                if p.branch(z3.Select(fs.kind, t) == DIR):
+            if not p.branch(kind_at(p, fs.kind, t) == FILE):
+                if p.branch(kind_at(p, fs.kind, t) == DIR):
                     p.raise_("IsADirectoryError")
                 p.raise_("FileNotFoundError")
             return p.alloc(HFile(t, z3.Select(fs.data, t), z3.IntVal(0), mode))
         if mode in ("wb", "w"):
             maybe_oserror(p, "open_w", ("PermissionError", "OSError"))
-            if p.branch(z3.Select(fs.kind, t) == DIR):
+            if p.branch(kind_at(p, fs.kind, t) == DIR):
                 p.raise_("IsADirectoryError")
             fs.kind = z3.Store(fs.kind, t, FILE)
             fs.data = z3.Store(fs.data, t, z3.Empty(BYTES))
@@ -309,9 +316,9 @@ def install(reg):
             return p.alloc(HFile(t, z3.Empty(BYTES), z3.IntVal(0), mode))
         if mode in ("ab", "a"):
             maybe_oserror(p, "open_a", ("PermissionError", "OSError"))
-            if p.branch(z3.Select(fs.kind, t) == DIR):
+            if p.branch(kind_at(p, fs.kind, t) == DIR):
                 p.raise_("IsADirectoryError")
-            created = z3.Select(fs.kind, t) == ABSENT
+            created = kind_at(p, fs.kind, t) == ABSENT
             fs.data = z3.If(created, z3.Store(fs.data, t, z3.Empty(BYTES)), fs.data)
             fs.kind = z3.Store(fs.kind, t, FILE)
             effect(p, "create-or-touch", t)
@@ -354,7 +361,7 @@ def install(reg):
     def pyben_load(p, args, kw):
         fs = fs_of(p)
         t = str_term(p, args[0])
-        if not p.branch(z3.Select(fs.kind, t) == FILE):
+        if not p.branch(kind_at(p, fs.kind, t) == FILE):
             p.raise_("pyben.exceptions.FilePathError")
         dec = p.engine.uf("bdecode", BYTES, PV)
         ok = p.engine.uf("bdecodable", BYTES, B)
@@ -407,12 +414,12 @@ def install(reg):
     # ------------------------------------------------------------ spec functions over the FS
     def s_fs_exists(p, path):
         fs = fs_of(p)
-        return VBool(z3.Select(fs.kind, str_term(p, path)) != ABSENT)
+        return VBool(kind_at(p, fs.kind, str_term(p, path)) != ABSENT)
     SF["fs_exists"] = s_fs_exists
 
     def s_fs_isfile(p, path):
         fs = fs_of(p)
-        return VBool(z3.Select(fs.kind, str_term(p, path)) == FILE)
+        return VBool(kind_at(p, fs.kind, str_term(p, path)) == FILE)
     SF["fs_isfile"] = s_fs_isfile
 
     def s_fs_data(p, path):
@@ -427,8 +434,20 @@ def install(reg):
 
     def s_fs_isfile0(p, path):
         fs = fs_of(p)
-        return VBool(z3.Select(fs.kind0, str_term(p, path)) == FILE)
+        return VBool(kind_at(p, fs.kind0, str_term(p, path)) == FILE)
     SF["fs_isfile0"] = s_fs_isfile0
+
+    def s_fs_exists0(p, path):
+        fs = fs_of(p)
+        return VBool(kind_at(p, fs.kind0, str_term(p, path)) != ABSENT)
+    SF["fs_exists0"] = s_fs_exists0
+
+    def s_probe_path(p, path):
+        t = str_term(p, path)
+        join = p.engine.uf("pathjoin", S, S, S)
+        ends = z3.Or(z3.SuffixOf(z3.StringVal("\\"), t), z3.SuffixOf(z3.StringVal("/"), t))
+        return VStr(z3.If(ends, join(t, z3.StringVal(".torrent")), t))
+    SF["probe_path"] = s_probe_path
 
     def s_benc(p, v):
         enc = p.engine.uf("benc", PV, BYTES)
